@@ -61,12 +61,16 @@ def c14_extra(tier, seed, harness, problems, stats, build_harness):
         for i in range(nt):
             fs["nontrivial"].add("%d/%d" % (s, i))
         sets_only = [l for l in out.splitlines() if l.startswith("SETS-ONLY ")]
+        if sets_only:
+            # since the repair of D15 (one rule object per storage index) a concurrent answer must equal the
+            # sequential one exactly, duplicates included
+            problems.append({"kind": "sc-mismatch", "detail": "seed %d: concurrent answer equals the sequential one only as a set "
+                             "(a rule reported twice): %s" % (s, sets_only[0][:2500])})
         if len(fs["samples"]) < 3:
             fs["samples"].append({"op": "harness-race c14race %d %d" % (s, rounds), "go": m.group(0)[:300], "model": "-", "spec": "-",
                                   "note": "yields at hook points 1/2/3/4 = %s; race reports = %d%s" % (
                                       m.group(6), races,
-                                      ("; answers equal to the sequential ones only AS SETS (a rule returned twice, see "
-                                       "DESIGN.md section 6; not counted as a violation), e.g. " + sets_only[0][:600]) if sets_only else "")})
+                                      ("; answers equal to the sequential ones only AS SETS (a rule returned twice), e.g. " + sets_only[0][:600]) if sets_only else "")})
     fs["wall_s"] += time.time() - t0
 
 
